@@ -484,70 +484,77 @@ def run(ctx):
         ctx.violation("R14.3", "move_content_to_origin:order", "content is not appended to the first cell from the remaining cells in "
                       "reading order", file=rng.file, line=mv.line if mv else rng.line)
     # extents: min / abs diff + 1; bottom = top + height; right = left + width
+    from sa import paths as P_
+
+    def returned(f, local_only=False):
+        """the returned expressions of f's canonical form with single-assignment locals substituted ([] when not a single shape)"""
+        fx = _expand(prog, f, local_only=local_only)
+        val = P_.value_aliases(fx)
+        val.pop("_", None)
+        from sa.types import walk_own as _walk_own
+
+        return [ast.parse(P_.full(n.value, val, depth=8), mode="eval").body for n in _walk_own(fx)
+                if isinstance(n, ast.Return) and n.value is not None]
+
     ext = rng.methods.get("_extents")
-    ok_ext = False
-    if ext is not None:
-        helper = [n for n in ext.node.body if isinstance(n, ast.FunctionDef)]
-        if helper:
-            h = helper[0]
-            a, b = [x.arg for x in h.args.args][:2]
-            ret = [n.value for n in ast.walk(h) if isinstance(n, ast.Return)]
-            if ret and isinstance(ret[0], ast.Tuple) and len(ret[0].elts) == 2:
-                s, z = ret[0].elts
-                s_ok = isinstance(s, ast.Call) and dotted(s.func) == "min" and {dotted(x) for x in s.args} == {a, b}
-                zp = of_expr(z)
-                absym = [x for x in zp.symbols()]
-                z_ok = (zp - Poly.const(1)).t and len(absym) == 1 and absym[0] in (
-                    "abs(%s - %s)" % (a, b), "abs(%s - %s)" % (b, a)) and zp == Poly.sym(absym[0]) + Poly.const(1)
-                calls = {}
-                for n in ast.walk(ext.node):
-                    if isinstance(n, ast.Assign) and isinstance(n.targets[0], ast.Tuple) and isinstance(n.value, ast.Call) \
-                            and dotted(n.value.func) == h.name:
-                        calls[tuple(e.id for e in n.targets[0].elts)] = tuple(dotted(x) for x in n.value.args)
-                retv = [n.value for n in ext.node.body if isinstance(n, ast.Return)]
-                order = [e.id for e in retv[0].elts] if retv and isinstance(retv[0], ast.Tuple) else []
-                axis = {}
-                for (st, sz), args in calls.items():
-                    attrs = {x.split(".")[-1] for x in args}
-                    if len(attrs) == 1:
-                        axis[attrs.pop()] = (st, sz)
-                ok_ext = bool(s_ok and z_ok and "col_idx" in axis and "row_idx" in axis
-                              and order == [axis["col_idx"][0], axis["row_idx"][0], axis["col_idx"][1], axis["row_idx"][1]])
-    if ok_ext:
-        ctx.ok("R14.3", "TcRange._extents", sample={"start": "min(i, j)", "size": "abs(i - j) + 1", "order": "(left, top, width, height)"})
+    if ext is None:
+        raise AnalysisError("anchor vanished: TcRange._extents")
+    rv = returned(ext)
+    if len(rv) != 1 or not (isinstance(rv[0], ast.Tuple) and len(rv[0].elts) == 4):
+        ctx.error("TcRange._extents", "the returned (left, top, width, height) tuple is not recognised")
     else:
-        ctx.violation("R14.3", "TcRange._extents", "extents are not (min, |difference|+1) per axis in (left, top, width, height) order: "
-                      "a corner pair in some orientation gives the wrong rectangle", file=rng.file, line=ext.line if ext else rng.line)
-    for prop, (i_start, i_size, label) in {"_bottom": (1, 3, "top + height"), "_right": (0, 2, "left + width"),
-                                           "_left": (0, None, "left"), "_top": (1, None, "top")}.items():
-        f = rng.methods.get(prop)
-        good = False
-        if f is not None:
-            unpack = [n for n in ast.walk(f.node) if isinstance(n, ast.Assign) and isinstance(n.targets[0], ast.Tuple)
-                      and dotted(n.value) == "self._extents"]
-            ret = [n.value for n in ast.walk(f.node) if isinstance(n, ast.Return)]
-            if unpack and ret:
-                names = [getattr(e, "id", None) for e in unpack[0].targets[0].elts]
-                want = Poly.sym(names[i_start]) + (Poly.sym(names[i_size]) if i_size is not None else Poly())
-                good = len(names) == 4 and names[i_start] != "_" and of_expr(ret[0]) == want
-        if good:
-            ctx.ok("R14.3", "TcRange.%s" % prop, sample={"value": label})
+        got = [of_expr(e) for e in rv[0].elts]
+
+        def axis(attr):
+            ks = sorted(["self._tc.%s" % attr, "self._other_tc.%s" % attr])
+            return Poly.sym("min{%s|%s}" % tuple(ks)), Poly.sym("span{%s|%s}" % tuple(ks)) + Poly.const(1)
+
+        (l_, w_), (t_, h_) = axis("col_idx"), axis("row_idx")
+        if got == [l_, t_, w_, h_]:
+            ctx.ok("R14.3", "TcRange._extents", sample={"start": "min(i, j)", "size": "|i - j| + 1", "order": "(left, top, width, height)"})
         else:
-            ctx.violation("R14.3", "TcRange.%s" % prop, "%s is not %s of the extents" % (prop, label), file=rng.file,
-                          line=f.line if f else rng.line)
+            ctx.violation("R14.3", "TcRange._extents", "extents are not (min, |difference|+1) per axis in (left, top, width, height) order: "
+                          "a corner pair in some orientation gives the wrong rectangle (computed %s)" % [repr(g) for g in got],
+                          file=rng.file, line=ext.line)
+    E = ["self._extents[%d]" % i for i in range(4)]
+    for prop, (want, label) in {"_bottom": (Poly.sym(E[1]) + Poly.sym(E[3]), "top + height"), "_right": (Poly.sym(E[0]) + Poly.sym(E[2]), "left + width"),
+                                "_left": (Poly.sym(E[0]), "left"), "_top": (Poly.sym(E[1]), "top")}.items():
+        f = rng.methods.get(prop)
+        if f is None:
+            raise AnalysisError("anchor vanished: TcRange.%s" % prop)
+        rv = returned(f, local_only=True)
+        # `self._left + width` style: the sibling properties are the extents components themselves
+        sib = {"self._left": Poly.sym(E[0]), "self._top": Poly.sym(E[1])}
+
+        class Sib(ast.NodeTransformer):
+            def visit_Attribute(self_, x):
+                return ast.Name(id="SIB_" + x.attr, ctx=ast.Load()) if dotted(x) in sib else self_.generic_visit(x)
+        import copy as _cp
+
+        vals = [of_expr(Sib().visit(_cp.deepcopy(e)), {"SIB__left": sib["self._left"], "SIB__top": sib["self._top"]}) for e in rv]
+        if len(vals) == 1 and vals[0] == want:
+            ctx.ok("R14.3", "TcRange.%s" % prop, sample={"value": label})
+        elif len(vals) == 1:
+            ctx.violation("R14.3", "TcRange.%s" % prop, "%s is %r, not %s of the extents" % (prop, vals[0], label), file=rng.file, line=f.line)
+        else:
+            ctx.error("TcRange.%s" % prop, "returned value not recognised")
     fmo = rng.methods.get("from_merge_origin")
-    good = False
-    if fmo is not None:
-        for n in ast.walk(fmo.node):
-            if isinstance(n, ast.Call) and isinstance(n.func, ast.Attribute) and n.func.attr == "tc" and len(n.args) == 2:
-                r0, c0 = of_expr(n.args[0]), of_expr(n.args[1])
-                good = (r0 == Poly.sym("tc.row_idx") + Poly.sym("tc.rowSpan") - Poly.const(1)
-                        and c0 == Poly.sym("tc.col_idx") + Poly.sym("tc.gridSpan") - Poly.const(1))
-    if good:
-        ctx.ok("R14.3", "TcRange.from_merge_origin", sample={"far_corner": "(row_idx + rowSpan - 1, col_idx + gridSpan - 1)"})
+    if fmo is None:
+        raise AnalysisError("anchor vanished: TcRange.from_merge_origin")
+    fx_ = _expand(prog, fmo, local_only=True)
+    fval = P_.value_aliases(fx_)
+    tp = fmo.node.args.args[1].arg
+    corner = [n for n in ast.walk(fx_) if isinstance(n, ast.Call) and isinstance(n.func, ast.Attribute) and n.func.attr == "tc" and len(n.args) == 2]
+    if len(corner) != 1:
+        ctx.error("TcRange.from_merge_origin", "the far-corner lookup tbl.tc(row, col) is not recognised")
     else:
-        ctx.violation("R14.3", "TcRange.from_merge_origin", "far corner of a merged region is not origin + span - 1: split would reset "
-                      "a different rectangle than merge marked", file=rng.file, line=fmo.line if fmo else rng.line)
+        r0, c0 = (of_expr(ast.parse(P_.full(x, fval), mode="eval").body) for x in corner[0].args)
+        if (r0 == Poly.sym(tp + ".row_idx") + Poly.sym(tp + ".rowSpan") - Poly.const(1)
+                and c0 == Poly.sym(tp + ".col_idx") + Poly.sym(tp + ".gridSpan") - Poly.const(1)):
+            ctx.ok("R14.3", "TcRange.from_merge_origin", sample={"far_corner": "(row_idx + rowSpan - 1, col_idx + gridSpan - 1)"})
+        else:
+            ctx.violation("R14.3", "TcRange.from_merge_origin", "far corner of a merged region is %r, %r, not origin + span - 1: split would reset "
+                          "a different rectangle than merge marked" % (r0, c0), file=rng.file, line=fmo.line)
 
     # -- R14.4 -------------------------------------------------------------------------------------------
     ctx.rule("R14.4", "size setters store then notify; the chain ends in the frame size = sum over all rows / columns")
@@ -726,6 +733,7 @@ def run(ctx):
             ctx.ok("R14.5", key, sample={"count": what, "sum_of_sizes": "%s (identity holds for every value of the floor division)" % total_param})
     # cells per row
     good = False
+    cells_seen = False
     if "add_tr" in found:
         lp = found["add_tr"][0]
         trvar = None
@@ -739,7 +747,11 @@ def run(ctx):
                 calls = [c for c in ast.walk(st) if isinstance(c, ast.Call) and dotted(c.func) == "%s.add_tc" % trvar]
                 conds = [c for c in ast.walk(st) if isinstance(c, (ast.If, ast.Break, ast.Continue))]
                 good = len(calls) == 1 and not conds
-    if good:
+            if isinstance(st, ast.For) and isinstance(st.iter, ast.Call) and dotted(st.iter.func) == "range":
+                cells_seen = True
+    if "add_tr" not in found or (not good and not cells_seen):
+        ctx.error("new_tbl:add_tc", "the loop giving each row its cells is not recognised")
+    elif good:
         ctx.ok("R14.5", "new_tbl:add_tc", sample={"cells_per_row": "cols, unconditionally, in every row"})
     else:
         ctx.violation("R14.5", "new_tbl:add_tc", "rows are not given exactly `cols` cells each", file=nt.file, line=nt.line)
